@@ -84,12 +84,13 @@ Who == IF Ev.a = "Enq" THEN Peer(Ev.e) ELSE Ev.e
 \* one connection the projection it carries may already include a later step of another thread - not compared)
 PostOk == Ev.a = "SendErr" \/ Proj(ep'[Who]) = Ev.post
 
-InvNames == <<"Fifo", "Window", "RecvBound", "NoFrmr", "SeqOk", "NotBroken">>
+InvNames == <<"Fifo", "Window", "RecvBound", "NoFrmr", "SeqOk", "WinInd", "NotBroken">>
 InvP(n) == CASE n = "Fifo" -> FifoP(accepted', delivered')
              [] n = "Window" -> WindowP(ep')
              [] n = "RecvBound" -> RecvBoundP(ep')
              [] n = "NoFrmr" -> NoFrmrP(ep', wire')
              [] n = "SeqOk" -> SeqOkP(ep', wire')
+             [] n = "WinInd" -> WinIndP(ep', wire')
              [] n = "NotBroken" -> ~broken'
 Real == Guarded /\ PostOk /\ \A i \in DOMAIN InvNames : InvP(InvNames[i])
 
